@@ -15,7 +15,7 @@ import (
 )
 
 func init() {
-	props["C10"] = &propDef{extraPkgs: []string{jsonPatchPkg}, run: runC10, explanation: "Partial (thin): the list algebra itself (insert-or-replace keeping order, set union/difference, RFC 6902 semantics, id uniqueness) is value-level and NOT decided. Decided statically: (T1) the action tables agree — keys of patch.actionConfig = case constants of patchvalidator.Validate = case constants of the composer's dispatch = the eight patch.Action constants, each composer case calls its own handler and anything else is an error; (E1) handler write-sets — the key/service/also-known-as handlers write exactly their own member of the working document, replace builds a fresh document with exactly the two members taken from the replace document's publicKeys/services, ietf-json-patch returns the library output re-parsed; (P1) ApplyPatches is a left fold: deep copy of the document parameter, then one loop over the patches parameter in index order threading the result, the final result returned; (X2) sibling decision skeletons — for every append/update site in a handler's loop, which collection is iterated (document vs patch value), which collection the membership set is built from, the polarity of the membership test and what is appended; the three remove-handlers, the two keyed add-handlers and add-also-known-as must each match the documented skeleton (this catches an inverted keep condition, a dropped replace branch, a wrong source collection). Every handler loop visits every element: the only way out of a top-level loop body is an error return (a break drops the remaining entries). RFC 6902 operations are a left fold of the library's Apply over the document bytes (nothing else produces the running bytes, every successful exit returns them), and the applying function refuses only what the library refuses or a copy of a value into itself. Every list handler writes the rebuilt list back into the document on every accepting path. The copy guard lets an operation through exactly when from has at least as many tokens as path (three orderings). Replace-by-id searches every index of the list. Token unescape order of the copy guard; list accessors hand back every entry; (Document).Bytes reaches json.Marshal / Unmarshal only; document accessors read the member the composer writes; nothing else writes the running document of the fold. The fold rule runs C19.G and C19.H (composer); entries of add / replace patches are stored as they are."}
+	props["C10"] = &propDef{extraPkgs: []string{jsonPatchPkg}, run: runC10, explanation: "Partial (thin): the list algebra itself (insert-or-replace keeping order, set union/difference, RFC 6902 semantics, id uniqueness) is value-level and NOT decided. Decided statically: (T1) the action tables agree — keys of patch.actionConfig = case constants of patchvalidator.Validate = case constants of the composer's dispatch = the eight patch.Action constants, each composer case calls its own handler and anything else is an error; (E1) handler write-sets — the key/service/also-known-as handlers write exactly their own member of the working document, replace builds a fresh document with exactly the two members taken from the replace document's publicKeys/services, ietf-json-patch returns the library output re-parsed; (P1) ApplyPatches is a left fold: deep copy of the document parameter, then one loop over the patches parameter in index order threading the result, the final result returned; (X2) sibling decision skeletons — for every append/update site in a handler's loop, which collection is iterated (document vs patch value), which collection the membership set is built from, the polarity of the membership test and what is appended; the three remove-handlers, the two keyed add-handlers and add-also-known-as must each match the documented skeleton (this catches an inverted keep condition, a dropped replace branch, a wrong source collection). Every handler loop visits every element: the only way out of a top-level loop body is an error return (a break drops the remaining entries). RFC 6902 operations are a left fold of the library's Apply over the document bytes (nothing else produces the running bytes, every successful exit returns them), and the applying function refuses only what the library refuses or a copy of a value into itself. Every list handler writes the rebuilt list back into the document on every accepting path. The copy guard lets an operation through exactly when from has at least as many tokens as path (three orderings). Replace-by-id searches every index of the list. Token unescape order of the copy guard; list accessors hand back every entry; (Document).Bytes reaches json.Marshal / Unmarshal only; document accessors read the member the composer writes; nothing else writes the running document of the fold. The fold rule runs C19.G and C19.H (composer); entries of add / replace patches are stored as they are. Set builders keep every element; every operation's verdict is heeded."}
 	props["C14"] = &propDef{extraPkgs: []string{jsonPatchPkg}, run: runC14, explanation: "Partial (thin): document→patches→document and bytes round trips are value-level and NOT decided. Decided statically: (X1) each of the eight patch constructors stores ActionKey = its action and exactly one value under actionConfig[action]; (G1) FromBytes succeeds only across GetAction and GetValue of the decoded patch; GetValue looks up actionConfig[own action] and requires that member; GetAction admits only string-typed actions present in actionConfig; (T1) PatchesFromDocument maps publicKey / service / alsoKnownAs to their constructors and every other member to one combined ietf-json-patch 'add /<name>', visits members in sorted order, and succeeds only for documents without an id; (P1) Bytes() serialises the receiver itself; (J1) in the functions reachable from PatchesFromDocument no list separator is written under a loop-index test while the elements are written conditionally (hand-assembled JSON). (K2) every JSON decode in the patch and document packages is a plain encoding/json.Unmarshal; (X3) the json-patch fold and closed-refusal rules of C10. (K3) format strings in pkg/patch are constants; the validator's duplicate test for also-known-as URIs compares the URI's own text. Every constructor stores its value with a generic-JSON dynamic type. A constructor's value is built with decoding and conversion only; the composer stores patch entries' objects as they are. All of C10 and C13 run inside this check; GetAction hands back the action member as it stands. The add-operation text is checked in concatenation form."}
 }
 
@@ -274,7 +274,8 @@ func runC10(c *Ctx) {
 	c.applyPatchesFoldRule("C10.P1")
 	c.jsonPatchFoldRule("C10.P1")
 	c.listAccessorLoopsRule("C10.P1")
-	c.Min("C10.P1", 10)
+	c.setBuildersRule("C10.P1")
+	c.Min("C10.P1", 11)
 
 	c.composerSkeletons("C10.X2", handlers)
 	// "add installs the entry": the JSON-LD object of each patch entry goes into the rebuilt list as it is (a copying
@@ -456,6 +457,52 @@ func runC14(c *Ctx) {
 					if !strings.HasSuffix(parts[1], "[ι]") || !strings.HasPrefix(parts[3], "conv<string>(encoding/json.Marshal(document.FromBytes(") || !strings.HasSuffix(parts[3], "#0["+parts[1]+"])#0)") {
 						okT = false
 					}
+				}
+			})
+			// … or written into a builder with Fprintf and a constant format of %s verbs only (a []byte printed with %s is
+			// its text)
+			forEachInstr(pfd, func(in ssa.Instruction) {
+				cl, isC := in.(*ssa.Call)
+				if !isC || cl.Call.StaticCallee() == nil || cl.Call.StaticCallee().String() != "fmt.Fprintf" || len(cl.Call.Args) != 3 {
+					return
+				}
+				k, isK := cl.Call.Args[1].(*ssa.Const)
+				args, okV := c.varargValues(cl.Call.Args[2])
+				if !isK || k.Value == nil || k.Value.Kind() != constant.String || !okV {
+					return
+				}
+				segs := strings.Split(constant.StringVal(k.Value), "%s")
+				if len(segs) != 3 || len(args) != 2 || strings.Contains(strings.Join(segs, ""), "%") {
+					return
+				}
+				var parts []string
+				for i, sg := range segs {
+					parts = append(parts, strconv.Quote(sg))
+					if i < len(args) {
+						a := args[i]
+						if mi, isMI := a.(*ssa.MakeInterface); isMI {
+							a = mi.X
+						}
+						p := c.Path(a, nil)
+						if isBytesT(a.Type()) {
+							p = "conv<string>(" + p + ")"
+						}
+						parts = append(parts, p)
+					}
+				}
+				forms = append(forms, strings.Join(parts, " ++ "))
+				lit := func(p string) string {
+					u, err := strconv.Unquote(p)
+					if err != nil {
+						return "?"
+					}
+					return strings.Join(strings.Fields(u), "")
+				}
+				if lit(parts[0]) != `{"op":"add","path":"/` || lit(parts[2]) != `","value":` || lit(parts[4]) != `}` {
+					okT = false
+				}
+				if !strings.HasSuffix(parts[1], "[ι]") || !strings.HasPrefix(parts[3], "conv<string>(encoding/json.Marshal(document.FromBytes(") || !strings.HasSuffix(parts[3], "#0["+parts[1]+"])#0)") {
+					okT = false
 				}
 			})
 			c.Check("C14.T1", "other-members:add-template", okT && len(forms) == 1, pfd.Pos(), fmt.Sprintf("operation text appended per other member: %v", forms))
@@ -1710,6 +1757,9 @@ func (c *Ctx) jsonRoundTripCellEnv(f *ssa.Function, al *ssa.Alloc, env Env) (str
 	return "", nil, false
 }
 
+// jsonPatchDocArg: position of the document bytes among the arguments of the call that stands for Apply.
+var jsonPatchDocArg = 1
+
 // jsonPatchFoldRule: the function that hands RFC 6902 operations to the json-patch library threads the document bytes
 // through them — the bytes given to Apply in one iteration are the bytes the previous Apply returned (the caller's bytes
 // in the first), every successful exit returns those bytes, and nothing but the library produces them. (Each operation
@@ -1743,7 +1793,44 @@ func (c *Ctx) jsonPatchFoldRule(rule string) {
 			inLoop = true
 		}
 	}
-	doc := site.Call.Args[1]
+	// Apply in a one-operation helper that a loop of its caller runs per operation: the helper hands back Apply's
+	// result on success (checked here, in the helper's frame), and the loop rules are the caller's — with the helper
+	// call in Apply's place
+	if !inLoop {
+		okHelper := true
+		for _, r := range successReturns(fn) {
+			if rv := returnedValue(r, 0); rv != extractOf(site, 0) {
+				okHelper = false
+			}
+		}
+		for _, g := range c.reachableModuleFuncs([]*ssa.Function{h}) {
+			for _, cl := range callsTo(g, fn) {
+				for _, l := range naturalLoops(g) {
+					if l.blocks[cl.Block()] && okHelper && fn.Object() != nil && !fn.Object().Exported() {
+						bi := -1
+						for i, a := range site.Call.Args {
+							if p, isP := a.(*ssa.Parameter); isP && i == 1 {
+								bi = paramIndex(p)
+							}
+						}
+						if bi >= 0 && bi < len(cl.Call.Args) {
+							c.Check(rule, "json-patch:one-operation-helper", true, fn.Pos(), short(fn.String())+" applies one operation with the library and hands back the library's result on success")
+							site, fn, inLoop = cl, g, true
+							// (the document argument of the helper call stands where Apply's stood)
+							if bi != 1 {
+								args := make([]ssa.Value, len(cl.Call.Args))
+								copy(args, cl.Call.Args)
+								_ = args
+							}
+							jsonPatchDocArg = bi
+						}
+					}
+				}
+			}
+		}
+	}
+	doc := site.Call.Args[jsonPatchDocArg]
+	jsonPatchDocArg = 1
 	ok := true
 	why := ""
 	if inLoop {
@@ -1793,6 +1880,9 @@ func (c *Ctx) jsonPatchFoldRule(rule string) {
 							c.tokenUnescapeRule(rule)
 						}
 						allowed[short(g.String())+"("] = true
+					} else if cs["copy"] && cs["move"] && cs["path"] && !cs["add"] && !cs["replace"] && !cs["test"] && !cs["value"] {
+						// the destination-index guard (C19.G): a copy / move beyond the end of an array is refused, as RFC 6902 says
+						allowed[short(g.String())+"("] = true
 					} else if c.copyGuardOnMembers(cl, nil) {
 						// the guard handed the two pointers themselves (the caller reads "from" and "path" of the operation)
 						if !allowed[short(g.String())+"("] {
@@ -1806,9 +1896,11 @@ func (c *Ctx) jsonPatchFoldRule(rule string) {
 		})
 		var extra []string
 		for _, r := range c.rejectionReasons(fn, nil, false, 3) {
-			okR := strings.Contains(r, "json-patch.Patch).Apply(")
+			// (the tested value is the library's verdict, or the verdict of one of the guards — not a value that merely
+			// mentions them, like a check of its own on the bytes the previous Apply returned)
+			okR := strings.HasPrefix(r, "((github.com/evanphx/json-patch.Patch).Apply")
 			for a := range allowed {
-				if strings.Contains(r, a) {
+				if strings.HasPrefix(r, "("+a) {
 					okR = true
 				}
 			}
@@ -1817,6 +1909,12 @@ func (c *Ctx) jsonPatchFoldRule(rule string) {
 			}
 		}
 		c.Check(rule, "json-patch:no-refusal-of-its-own", len(extra) == 0, fn.Pos(), "the applying function refuses only what the library refuses, or a copy of a value into itself", extra...)
+	}
+	// every operation's verdict is heeded: inside the loop, the next operation is reached (and the function succeeds)
+	// only after the library applied this one without an error — a verdict collected and looked at after the loop is the
+	// last operation's only ("test" then "replace": RFC 6902 refuses the whole patch when the test fails)
+	if inLoop {
+		c.CheckGuardLoop(rule, "json-patch:every-operation's-verdict-is-heeded", fn, nil, &GCheck{Name: "the library applied this operation", MatchCall: func(c *Ctx, call *ssa.Call, env Env) bool { return call == site }})
 	}
 	// … and the copy guard tells "the same element" the way the library does: index tokens read with the library's own
 	// number parser, every Apply call one operation wide and behind the guard (C19.G)
@@ -2374,6 +2472,49 @@ func (c *Ctx) listAccessorLoopsRule(rule string) {
 	}
 }
 
+// setBuildersRule: the helpers of the composer that turn a list into a set (a loop over the list parameter that puts
+// each element into a map made there, handed back) put every element in — "already present" and "to be removed" are
+// decided against these sets; an element left out (the empty string, say, which is a valid URI reference) is neither.
+func (c *Ctx) setBuildersRule(rule string) {
+	n := 0
+	var bad []string
+	for _, f := range c.Funcs {
+		if pkgPathOf(f) != modPkg+pComposer || f.Blocks == nil || f.Parent() != nil {
+			continue
+		}
+		forEachInstr(f, func(in ssa.Instruction) {
+			mu, ok := in.(*ssa.MapUpdate)
+			if !ok {
+				return
+			}
+			if _, isMM := stripConv(mu.Map).(*ssa.MakeMap); !isMM {
+				return
+			}
+			returned := false
+			for _, r := range returnsOf(f) {
+				for _, rv := range r.Results {
+					if stripConv(rv) == stripConv(mu.Map) {
+						returned = true
+					}
+				}
+			}
+			if !returned {
+				return
+			}
+			for _, l := range naturalLoops(f) {
+				if !l.blocks[mu.Block()] {
+					continue
+				}
+				n++
+				if !everyIterationOf(l, mu.Block()) {
+					bad = append(bad, fmt.Sprintf("%s: %s puts an element into the set only under a condition", c.pos(mu.Pos()), short(f.String())))
+				}
+			}
+		})
+	}
+	c.Check(rule, "set-builders:every-element-kept", n >= 1 && len(bad) == 0, 0, fmt.Sprintf("%d set-building loop(s) in the composer; each puts every element of its list into the set", n), bad...)
+}
+
 // everyIterationOf: block b of loop l runs on every iteration (every path from the loop's body entry back to the header
 // passes through b).
 func everyIterationOf(l *loop, b *ssa.BasicBlock) bool {
@@ -2441,6 +2582,25 @@ func (c *Ctx) patchAccessorRules(cfgFn *ssa.Function) {
 	if fb == nil || ga == nil || gv == nil {
 		c.Unresolved("C14.G1", "patch.FromBytes / GetAction / GetValue")
 	} else {
+		// (a lookup accessor of the action table with an error for a miss — `valueKeyFor(action) (Key, error)` — reads as
+		// the lookup it makes)
+		{
+			saved := c.inlineFns
+			c.inlineFns = map[*ssa.Function]bool{}
+			for k, v := range saved {
+				c.inlineFns[k] = v
+			}
+			defer func() { c.inlineFns = saved }()
+			for _, f := range []*ssa.Function{ga, gv} {
+				forEachInstr(f, func(in ssa.Instruction) {
+					if cl, ok := in.(*ssa.Call); ok {
+						if lk, g := c.lookupAccessorErr(cl); lk != nil {
+							c.inlineFns[g] = true
+						}
+					}
+				})
+			}
+		}
 		var A string
 		for _, r := range successReturns(fb) {
 			A = c.Path(r.Results[0], nil)
